@@ -165,7 +165,7 @@ type progCase struct {
 
 // features that make a case non-trivial (DESIGN C01): ≥1 function call and ≥1 of these
 var interesting = []string{"abrupt-through-finally", "throw-through-finally", "finally-overrides-abrupt", "with", "with-call-this", "eval-direct", "eval-indirect",
-	"call-method", "apply-method", "bind-method", "new", "ctor-returns-object", "accessor-literal", "labelled-break", "switch-default", "instanceof", "catch", "method-call", "delete-prop", "typeof-unresolvable", "forin", "new-bound"}
+	"call-method", "apply-method", "bind-method", "new", "ctor-returns-object", "accessor-literal", "labelled-break", "switch-default", "instanceof", "catch", "method-call", "delete-prop", "typeof-unresolvable", "forin", "new-bound", "arguments-mapped-write", "arguments-mapped-read", "switch-fallthrough-possible"}
 
 func sameTrace(a, b []string) bool {
 	if len(a) != len(b) {
